@@ -9,6 +9,7 @@
 import CTM.Model.Output
 import CTM.Lemmas.Output
 import CTM.Lemmas.OutputFmt
+import CTM.Lemmas.OutputClean
 
 namespace CTM.C15
 open CTM.Output
@@ -419,5 +420,29 @@ theorem reorder_permutation (rs : List Record) (order : List StrId)
   exact ⟨rs', e1, e2, reorder_perm rs rs' order hids hord h2 e1 e2 e3⟩
 
 example : (sampleBlob.results.map (·.cellId)).Nodup ∧ [51, 50].Nodup := by decide
+
+/-! ## `clean_for_json` -/
+
+/-- mechanism *"numpy scalars and sets converted before JSON encoding"*: if
+every leaf is `None`, a `bool`, `np.bool_`, `int`, `np.int64`, `float` or `str`,
+the cleaned value is made of `None`, `bool`, `int`, `float`, `str`, `list`,
+`dict` only (no numpy scalar, tuple, set or array is left at any depth) -/
+theorem clean_for_json_plain (v : PyVal) (h : noOther v = true) : plain (clean v) = true :=
+  clean_plain v h
+
+/-- … the JSON value it stands for is unchanged (only Python types change; a
+set stands for the sorted list of its elements) … -/
+theorem clean_for_json_value (v : PyVal) : erase (clean v) = erase v := erase_clean v
+
+/-- … cleaning is idempotent, and the result does not depend on the order in
+which a set happens to be enumerated (`PYTHONHASHSEED`) -/
+theorem clean_for_json_idem (v : PyVal) : clean (clean v) = clean v := clean_idem v
+
+theorem clean_for_json_set_order (xs ys : List Int) (h : xs.Perm ys) :
+    clean (.intSet xs) = clean (.intSet ys) := clean_intSet_perm h
+
+example : noOther (.dict [(.str 1, .tuple [.npInt64 3, .intSet [3, 1, 2], .ndarray [.npBool true]])])
+    = true := by decide
+example : plain (.tuple [.int 1]) = false ∧ plain (clean (.tuple [.int 1])) = true := by decide
 
 end CTM.C15
